@@ -96,6 +96,8 @@ def run_job(job):
     """worker entry point: one (check, case[, prefix]) symbolic exploration"""
     prop, cname, params, tier, seed, mutations, prefix, mode = job
     sys.path.insert(0, VERIF) if VERIF not in sys.path else None
+    import warnings
+    warnings.simplefilter("ignore")
     t0 = time.time()
     out = dict(check=cname, params=params, prefix=prefix is not None, status="ok", violations=[], samples=[],
                validated=0, divergences=[], labels={}, stats={}, wall_s=0.0, functions=[], nontrivial=0,
@@ -228,6 +230,8 @@ def main(argv=None):
     seed = int(os.environ.get("VERIF_SEED", "0") or 0)
     if VERIF not in sys.path:
         sys.path.insert(0, VERIF)
+    import warnings
+    warnings.simplefilter("ignore")
     mod = importlib.import_module(f"harness.{prop.lower()}")
     if args.replay:
         return do_replay(prop, mod, args.replay)
